@@ -226,15 +226,202 @@ Proof.
   rewrite map_map in *. destruct b; cbn [vbool VT VF]; rewrite IH; reflexivity.
 Qed.
 
-(* central theorem: well-formed = decodable and no dictionary can overflow (distinct keys <= both capacities) *)
-Definition wf_C53 (i : val) : bool := match dec_C53 i with Some x => no_evict x | None => false end.
+
+(* ---------- 4. with LRU eviction: nobody is denied without cause ---------- *)
+Section Justified.
+  Variable c : cfg.
+  Hypothesis HP : 0 <= c_period c.
+
+  Lemma count_key_app k a b l1 l2 : count_key k a b (l1 ++ l2) = count_key k a b l1 + count_key k a b l2.
+  Proof. induction l1 as [|[k' t] r IH]; [reflexivity|]. cbn [app count_key]. rewrite IH. lia. Qed.
+  Lemma count_key_nonneg k a b l : 0 <= count_key k a b l.
+  Proof. induction l as [|[k' t] r IH]; cbn [count_key]; [lia|]. destruct ((k' =? k) && (a <=? t) && (t <=? b)); lia. Qed.
+
+  Definition just_acc (past : list (Z * Z)) (e : Z * counter) : Prop :=
+    In (fst e, snd (snd e)) past /\ fst (snd e) <= count_key (fst e) (snd (snd e)) (snd (snd e) + c_period c) past.
+  Definition just_pr (past : list (Z * Z)) (e : Z * Z) : Prop :=
+    exists s, In (fst e, s) past /\ c_threshold c < count_key (fst e) s (s + c_period c) past /\ snd e = s + c_period c + c_stay c.
+  Lemma just_acc_mono past x e : just_acc past e -> just_acc (past ++ x) e.
+  Proof.
+    intros [H1 H2]. split; [apply in_or_app; left; exact H1|]. rewrite count_key_app.
+    pose proof (count_key_nonneg (fst e) (snd (snd e)) (snd (snd e) + c_period c) x). lia.
+  Qed.
+  Lemma just_pr_mono past x e : just_pr past e -> just_pr (past ++ x) e.
+  Proof.
+    intros [s [H1 [H2 H3]]]. exists s. split; [apply in_or_app; left; exact H1|]. split; [|exact H3]. rewrite count_key_app.
+    pose proof (count_key_nonneg (fst e) s (s + c_period c) x). lia.
+  Qed.
+
+  (* generic facts about the recency lists *)
+  Lemma lru_find_In {A} k (l : list (Z * A)) v : lru_find k l = Some v -> In (k, v) l.
+  Proof.
+    induction l as [|[k' v'] r IH]; cbn [lru_find]; [discriminate|]. destruct (k' =? k) eqn:E.
+    - intros H. inversion H; subst. apply Z.eqb_eq in E. subst. left. reflexivity.
+    - intros H. right. apply IH. exact H.
+  Qed.
+  Lemma Forall_lru_remove {A} (P : Z * A -> Prop) k l : Forall P l -> Forall P (lru_remove k l).
+  Proof.
+    induction l as [|[k' v'] r IH]; intros H; [constructor|]. inversion H; subst. cbn [lru_remove].
+    destruct (k' =? k); [assumption|constructor; auto].
+  Qed.
+  Lemma Forall_removelast {A} (P : A -> Prop) l : Forall P l -> Forall P (removelast l).
+  Proof.
+    induction l as [|x r IH]; intros H; [constructor|]. inversion H; subst. destruct r as [|y r]; [constructor|].
+    change (removelast (x :: y :: r)) with (x :: removelast (y :: r)). constructor; auto.
+  Qed.
+  Lemma Forall_lru_update {A} (P : Z * A -> Prop) k v l : Forall P l -> P (k, v) -> Forall P (lru_update k v l).
+  Proof.
+    induction l as [|[k' v'] r IH]; intros H Hv; [constructor|]. inversion H; subst. cbn [lru_update].
+    destruct (k' =? k) eqn:E; [apply Z.eqb_eq in E; subst; constructor; assumption|constructor; auto].
+  Qed.
+  Lemma Forall_lru_add {A} (P : Z * A -> Prop) cap k v l : Forall P l -> P (k, v) -> Forall P (lru_add cap k v l).
+  Proof.
+    intros H Hv. unfold lru_add. destruct (lru_find k l).
+    - constructor; [exact Hv|apply Forall_lru_remove; exact H].
+    - destruct (cap <? Z.of_nat (length ((k, v) :: l))); [apply Forall_removelast|]; constructor; assumption.
+  Qed.
+
+  Lemma sd_spec (P : Z * Z -> Prop) pr k t d pr' : should_deny_l pr k t = (d, pr') -> Forall P pr ->
+    Forall P pr' /\ (d = true -> exists f, In (k, f) pr /\ t < f).
+  Proof.
+    unfold should_deny_l, lru_get. intros H HF. destruct (lru_find k pr) as [f|] eqn:Ef.
+    - pose proof (lru_find_In k pr f Ef) as Hin. rewrite Forall_forall in HF. pose proof (HF _ Hin) as Hf.
+      assert (HR : Forall P (lru_remove k pr)) by (apply Forall_lru_remove; apply Forall_forall; exact HF).
+      destruct (t <? f) eqn:Et; cbn [lru_remove] in H; try rewrite Z.eqb_refl in H; inversion H; subst.
+      + split; [constructor; assumption|]. intros _. exists f. split; [exact Hin|lia].
+      + split; [exact HR|discriminate].
+    - inversion H; subst. split; [exact HF|discriminate].
+  Qed.
+
+  Definition Inv (past : list (Z * Z)) (st : lstate) : Prop :=
+    Forall (just_acc past) (l_acc st) /\ Forall (just_pr past) (l_pr st).
+  Definition times_le (past : list (Z * Z)) (m : Z) : Prop := forall k s, In (k, s) past -> 0 <= k -> s <= m.
+
+  Lemma count_last k t past : 0 <= k ->
+    count_key k t (t + c_period c) (past ++ [(k, t)]) >= 1.
+  Proof.
+    intros Hk. rewrite count_key_app. cbn [count_key]. rewrite Z.eqb_refl.
+    replace (t <=? t) with true by (symmetry; apply Z.leb_le; lia).
+    replace (t <=? t + c_period c) with true by (symmetry; apply Z.leb_le; lia). cbn [andb].
+    pose proof (count_key_nonneg k t (t + c_period c) past). lia.
+  Qed.
+
+  Lemma step_justified past st k t st' d :
+    Inv past st -> times_le past t -> 0 <= k ->
+    record_and_check_l c st k t = (st', d) ->
+    Inv (past ++ [(k, t)]) st' /\ (d = true -> denial_justified c (past ++ [(k, t)]) k t = true).
+  Proof.
+    intros [HA HPr] Hle Hk. set (sofar := past ++ [(k, t)]).
+    assert (HA' : Forall (just_acc sofar) (l_acc st)) by (eapply Forall_impl; [|exact HA]; intros e; apply just_acc_mono).
+    assert (HP' : Forall (just_pr sofar) (l_pr st)) by (eapply Forall_impl; [|exact HPr]; intros e; apply just_pr_mono).
+    assert (Hden : forall f, (exists s, In (k, s) sofar /\ c_threshold c < count_key k s (s + c_period c) sofar /\ f = s + c_period c + c_stay c) ->
+                   t < f -> denial_justified c sofar k t = true).
+    { intros f [s [H1 [H2 H3]]] Hlt. unfold denial_justified. apply existsb_exists. exists (k, s). split; [exact H1|].
+      cbn [fst snd]. rewrite Z.eqb_refl. cbn [andb]. apply andb_true_iff. split; apply Z.ltb_lt; lia. }
+    unfold record_and_check_l. destruct (k <? 0) eqn:Ek; [lia|].
+    destruct (should_deny_l (l_pr st) k t) as [d1 pr1] eqn:E1.
+    destruct (sd_spec (just_pr sofar) _ _ _ _ _ E1 HP') as [HP1 Hd1].
+    destruct d1.
+    - intros H. inversion H; subst. split; [split; assumption|]. intros _.
+      destruct (Hd1 eq_refl) as [f [Hin Hlt]]. rewrite Forall_forall in HP'. apply (Hden f (HP' _ Hin) Hlt).
+    - (* the counter *)
+      set (got := match lru_get k (l_acc st) with
+                  | (Some cs, acc') => (cs, acc')
+                  | (None, _) => ((0, t), lru_add (l_acap st) k (0, t) (l_acc st)) end).
+      assert (Hgot : Forall (just_acc sofar) (snd got) /\
+                     In (k, snd (fst got)) sofar /\ snd (fst got) <= t /\
+                     fst (fst got) <= count_key k (snd (fst got)) (snd (fst got) + c_period c) past).
+      { subst got. unfold lru_get. destruct (lru_find k (l_acc st)) as [[n s]|] eqn:Ef.
+        - pose proof (lru_find_In k _ _ Ef) as Hin. cbn [fst snd].
+          rewrite Forall_forall in HA. destruct (HA _ Hin) as [Hi Hn]. cbn [fst snd] in Hi, Hn.
+          split; [constructor; [rewrite Forall_forall in HA'; apply (HA' _ Hin)|apply Forall_lru_remove; exact HA']|].
+          split; [apply in_or_app; left; exact Hi|]. split; [apply (Hle k s Hi Hk)|exact Hn].
+        - cbn [fst snd]. assert (Hnew : just_acc sofar (k, (0, t))).
+          { split; cbn [fst snd]; [apply in_or_app; right; left; reflexivity|apply count_key_nonneg]. }
+          split; [apply Forall_lru_add; assumption|]. split; [apply in_or_app; right; left; reflexivity|].
+          split; [lia|apply count_key_nonneg]. }
+      destruct got as [[n s] acc1]. cbn [fst snd] in Hgot. destruct Hgot as [Hacc1 [Hin [Hst Hn]]].
+      unfold inc_and_check. cbn [fst snd].
+      set (cs1 := if s + c_period c <? t then (0, t) else (n, s)).
+      assert (Hcs1 : In (k, snd cs1) sofar /\ fst cs1 + 1 <= count_key k (snd cs1) (snd cs1 + c_period c) sofar /\ t <= snd cs1 + c_period c).
+      { subst cs1. destruct (s + c_period c <? t) eqn:Er; cbn [fst snd].
+        - split; [apply in_or_app; right; left; reflexivity|]. pose proof (count_last k t past Hk). fold sofar in H. lia.
+        - split; [exact Hin|]. split; [|lia]. unfold sofar. rewrite count_key_app. cbn [count_key]. rewrite Z.eqb_refl.
+          replace (s <=? t) with true by (symmetry; apply Z.leb_le; lia).
+          replace (t <=? s + c_period c) with true by (symmetry; apply Z.leb_le; lia). cbn [andb]. lia. }
+      destruct cs1 as [c1 s1]. cbn [fst snd] in Hcs1. destruct Hcs1 as [Hin1 [Hc1 Hw1]].
+      assert (Hnewacc : just_acc sofar (k, (c1 + 1, s1))) by (split; cbn [fst snd]; assumption).
+      pose proof (Forall_lru_update (just_acc sofar) k (c1 + 1, s1) acc1 Hacc1 Hnewacc) as Hacc2.
+      destruct (c_threshold c <? c1 + 1) eqn:Eb.
+      + (* jailed *)
+        assert (Hnewpr : just_pr sofar (k, c_stay c + (s1 + c_period c - t) + t)).
+        { exists s1. cbn [fst snd]. split; [exact Hin1|]. split; [lia|lia]. }
+        pose proof (Forall_lru_add (just_pr sofar) (l_pcap st) k _ pr1 HP1 Hnewpr) as HP2.
+        destruct (should_deny_l (lru_add (l_pcap st) k (c_stay c + (s1 + c_period c - t) + t) pr1) k t) as [d2 pr3] eqn:E2.
+        destruct (sd_spec (just_pr sofar) _ _ _ _ _ E2 HP2) as [HP3 Hd2].
+        intros H. inversion H; subst. split; [split; cbn [l_acc l_pr]; [apply Forall_lru_remove; exact Hacc2|exact HP3]|].
+        intros Hd. destruct (Hd2 Hd) as [f [Hinf Hlt]]. rewrite Forall_forall in HP2. apply (Hden f (HP2 _ Hinf) Hlt).
+      + destruct (should_deny_l pr1 k t) as [d2 pr3] eqn:E2.
+        destruct (sd_spec (just_pr sofar) _ _ _ _ _ E2 HP1) as [HP3 Hd2].
+        intros H. inversion H; subst. split; [split; cbn [l_acc l_pr]; assumption|].
+        intros Hd. destruct (Hd2 Hd) as [f [Hinf Hlt]]. rewrite Forall_forall in HP1. apply (Hden f (HP1 _ Hinf) Hlt).
+  Qed.
+End Justified.
+
+Fixpoint sorted_from (m : Z) (ops : list (Z * Z)) : bool :=
+  match ops with
+  | [] => true
+  | (k, t) :: r => if k <? 0 then sorted_from m r else (m <=? t) && sorted_from t r
+  end.
+Fixpoint first_time (ops : list (Z * Z)) : Z :=
+  match ops with [] => 0 | (k, t) :: r => if k <? 0 then first_time r else t end.
+(* request times (of signable requests) are non-decreasing *)
+Definition sorted_all (ops : list (Z * Z)) : bool := sorted_from (first_time ops) ops.
+
+Lemma run_lru_justified c : 0 <= c_period c -> forall ops past st m,
+  Inv c past st -> times_le past m -> sorted_from m ops = true ->
+  all_justified c past ops (run_lru c st ops) = true.
+Proof.
+  intros HP. induction ops as [|[k t] r IH]; intros past st m HI Hle Hs; [reflexivity|].
+  cbn [run_lru]. cbn [sorted_from] in Hs.
+  assert (Hmono : forall x, Inv c past st -> Inv c (past ++ x) st).
+  { intros x [H1 H2]. split; (eapply Forall_impl; [|eassumption]); intros e; [apply just_acc_mono|apply just_pr_mono]. }
+  destruct (k =? -2) eqn:E2.
+  - apply Z.eqb_eq in E2. subst k. cbn [all_justified]. change (-2 <? 0) with true in Hs.
+    apply (IH (past ++ [(-2, t)]) (reload_l st t) m); [|intros k s Hin Hk; apply in_app_or in Hin; destruct Hin as [Hin|[Hin|[]]]; [apply (Hle k s Hin Hk)|inversion Hin; subst; lia]|exact Hs].
+    destruct (Hmono [(-2, t)] HI) as [H1 H2]. split; assumption.
+  - destruct (record_and_check_l c st k t) as [st' d] eqn:ER. cbn [all_justified].
+    destruct (k <? 0) eqn:Ek.
+    + unfold record_and_check_l in ER. rewrite Ek in ER. inversion ER; subst. cbn [andb].
+      apply (IH (past ++ [(k, t)]) st' m); [apply Hmono; exact HI| |exact Hs].
+      intros k' s Hin Hk. apply in_app_or in Hin. destruct Hin as [Hin|[Hin|[]]]; [apply (Hle k' s Hin Hk)|inversion Hin; subst; lia].
+    + apply andb_true_iff in Hs. destruct Hs as [Hmt Hs]. apply Z.leb_le in Hmt.
+      assert (Hk : 0 <= k) by lia.
+      assert (Hle' : times_le past t) by (intros k' s Hin Hk'; pose proof (Hle k' s Hin Hk'); lia).
+      destruct (step_justified c HP past st k t st' d HI Hle' Hk ER) as [HI' Hd].
+      apply andb_true_iff. split.
+      * destruct d; [|reflexivity]. rewrite (Hd eq_refl). replace (0 <=? k) with true by (symmetry; apply Z.leb_le; exact Hk). reflexivity.
+      * apply (IH (past ++ [(k, t)]) st' t); [exact HI'| |exact Hs].
+        intros k' s Hin Hk'. apply in_app_or in Hin. destruct Hin as [Hin|[Hin|[]]]; [apply (Hle' k' s Hin Hk')|inversion Hin; subst; lia].
+Qed.
+
+(* central theorem.  Well-formed: the input decodes, and either no dictionary can overflow (distinct keys <= both sizes:
+   the reference automaton decides), or period >= 0 and the request times are non-decreasing (LRU eviction possible:
+   every denial must be justified) *)
+Definition wf_C53 (i : val) : bool :=
+  match dec_C53 i with
+  | Some x => no_evict x || ((0 <=? c_period (in_cfg x)) && sorted_all (in_ops x))
+  | None => false
+  end.
 Theorem prop_C53_of_model : forall i, wf_C53 i = true -> kf_C53 i = 0 -> prop_C53 i (run_C53 i) = true.
 Proof.
   intros i Hwf _. unfold wf_C53 in Hwf. unfold prop_C53, run_C53. destruct (dec_C53 i) as [x|]; [|discriminate].
-  rewrite bools_of_vbool. unfold run_inp. rewrite Hwf.
-  rewrite (run_refines (in_cfg x) (in_ops x) empty_state (fun _ => k0)).
-  - apply list_bool_eqb_refl.
-  - intros k. split; [exact I|reflexivity].
+  rewrite bools_of_vbool. unfold run_inp. destruct (no_evict x) eqn:Ene.
+  - rewrite (run_refines (in_cfg x) (in_ops x) empty_state (fun _ => k0)).
+    + apply list_bool_eqb_refl.
+    + intros k. split; [exact I|reflexivity].
+  - cbn [orb] in Hwf. apply andb_true_iff in Hwf. destruct Hwf as [HP Hs]. apply Z.leb_le in HP.
+    apply (run_lru_justified (in_cfg x) HP (in_ops x) [] _ (first_time (in_ops x))); [split; constructor|intros k s []|exact Hs].
 Qed.
 
 Theorem model_is_reference c ops : run_ops c empty_state ops = spec_run c (fun _ => k0) ops.
@@ -258,4 +445,10 @@ Lemma C53_evict_example_lemma :
           [(0, 0); (1, 0); (0, 0); (1, 0); (0, 0); (1, 0)] = [false; false; false; false; false; false]
   /\ run_ops {| c_period := 5; c_stay := 4; c_threshold := 1 |} empty_state
           [(0, 0); (1, 0); (0, 0); (1, 0); (0, 0); (1, 0)] = [false; false; true; true; true; true].
+Proof. vm_compute. split; reflexivity. Qed.
+
+Lemma C53_wf_evict_example_lemma :
+  let i := VL [VZ 5; VZ 4; VZ 1; VZ 1; VZ 100;
+               VL [VL [VZ 0; VZ 0]; VL [VZ 1; VZ 0]; VL [VZ 0; VZ 0]; VL [VZ 1; VZ 0]; VL [VZ 0; VZ 0]; VL [VZ 1; VZ 0]]] in
+  wf_C53 i = true /\ run_C53 i = VL [VZ 0; VZ 0; VZ 0; VZ 0; VZ 0; VZ 0].
 Proof. vm_compute. split; reflexivity. Qed.
